@@ -95,7 +95,8 @@ theorem c10_predicate_source :
     KM.Gen.C10.ecdsaBitSizeBelow = some 255 ∧ KM.Gen.C10.ed25519Accepted = true ∧
     KM.Gen.C10.defaultRefuses = true ∧ KM.Gen.C10.strengthUnrecognised = [] ∧
     KM.Gen.C10.sshKeyTypes =
-      ["ssh-rsa".toList, "ssh-dss".toList, "ecdsa-sha2-nistp256".toList, "ssh-ed25519".toList] := by
+      ["ssh-rsa".toList, "ssh-dss".toList, "ecdsa-sha2-nistp256".toList, "ecdsa-sha2-nistp384".toList,
+       "ssh-ed25519".toList] := by
   decide
 
 end KM.KeyStrength
